@@ -149,6 +149,8 @@ class _Normalizer:
                 self._each_function(m, self._fuse_in_function)
                 if self.stats['inlined_calls'] + self.stats.get('fused_generators', 0) == before:
                     break
+            # (a cache and the emptying of what it hands out may have met only now, in the caller)
+            self._each_function(m, self._memo_elision)
             self._each_function(m, self._builtin_forms)
             self._each_function(m, self._iteration_idioms)
             self._each_function(m, self._yield_from)
@@ -253,6 +255,21 @@ class _Normalizer:
         if self.m.name not in got:
             tabs = {}
             for name, vals in self.m.assigns.items():
+                if len(vals) == 1 and not isinstance(vals[0], ast.DictComp):
+                    # ``tuple(E(x) for x in range(n))`` / ``[E(x) for x in range(n)]``: indexed by x as well
+                    v0 = vals[0]
+                    comp = v0.args[0] if (isinstance(v0, ast.Call) and isinstance(v0.func, ast.Name) and v0.func.id in ('tuple', 'list')
+                                          and len(v0.args) == 1 and not v0.keywords) else v0
+                    if isinstance(comp, (ast.GeneratorExp, ast.ListComp)) and len(comp.generators) == 1 and not comp.generators[0].ifs \
+                            and isinstance(comp.generators[0].target, ast.Name):
+                        it = comp.generators[0].iter
+                        if isinstance(it, ast.Call) and isinstance(it.func, ast.Name) and it.func.id == 'range' and len(it.args) == 1 \
+                                and isinstance(it.args[0], ast.Constant) and type(it.args[0].value) is int and 0 < it.args[0].value <= 256 \
+                                and not self.repo.table_writers(self.m.name, name) \
+                                and not any(isinstance(y, (ast.Lambda, ast.Yield, ast.NamedExpr, ast.ListComp, ast.GeneratorExp, ast.DictComp))
+                                            for y in ast.walk(comp.elt)):
+                            tabs[name] = (comp.generators[0].target.id, comp.elt, tuple(range(it.args[0].value)))
+                    continue
                 if len(vals) != 1 or not isinstance(vals[0], ast.DictComp):
                     continue
                 d = vals[0]
@@ -2931,7 +2948,7 @@ class _Normalizer:
                 continue
             for blk in _blocks(fnode):
                 for i, st in enumerate(blk):
-                    if getattr(st, 'lineno', None) != m.line:
+                    if st is not m.stmt:
                         continue
                     if m.shape == 'S' and isinstance(st, ast.If):
                         # drop the hit test and the two slot stores
